@@ -33,8 +33,8 @@ type cached struct {
 // call boundary (positions are taken from that history's own calibration trace)
 func buildPlan(seed uint64, n int, tier string, search bool) []wo.Input {
 	r := vhlib.NewRand(seed)
-	hists := append(wo.FixedHists(), wo.BulkHists()...)
-	nh := 4
+	hists := append(append(wo.FixedHists(), wo.BulkHists()...), wo.BackfillHists()...)
+	nh := 6
 	if tier == "thorough" {
 		nh = 40
 	}
